@@ -747,6 +747,9 @@ class Parser:
         npad = 0  # padding field count
         n = 0  # field index
 
+        # Names of the user's fields: a padding field must not take one of them
+        user_names = {f.name for f in s.fields}
+
         pad_len: Union[int, Literal[""]]
 
         # Loop over all fields in struct
@@ -774,6 +777,10 @@ class Parser:
 
             # Calculate number of bytes needed to get to next alignment boundary
             pad_len = field.alignment - (ptr % field.alignment)
+
+            # Skip padding names already used by a field of this struct
+            while f"padding_{npad}_" in user_names:
+                npad += 1
 
             # Create the required padding field
             padding = Field(
@@ -834,6 +841,10 @@ class Parser:
             # Don't make an array type if we only need one byte padding
             if pad_len == 1:
                 pad_len = ""
+
+            # Skip padding names already used by a field of this struct
+            while f"padding_{npad}_" in user_names:
+                npad += 1
 
             # Create the required padding field
             padding = Field(
